@@ -55,6 +55,8 @@ def units(tier):
             if name == "TC":
                 kw.update(nw=3, nc=2)
             out.append((f"panel:{name}[T={T},agents={n},targets={'+'.join(sub) or 'none'}]", "u_panel", {"spec": (name, kw), "n": n, "targets": sub}))
+    # continuous initial states supplied as an integer array (dtype handling when the panel is assembled)
+    out.append(("panel:TA[T=3,agents=2,int_init,targets=inc+utility+next_w]", "u_panel", {"spec": ("TA", dict(T=3, int_init=True)), "n": 2, "targets": ["inc", "utility", "next_w"]}))
     return out
 
 
